@@ -196,6 +196,26 @@ func aggregateFor(q *profile.Profile, gran string, noinl, cols bool) error {
 	return nil
 }
 
+// coarse: at a granularity without line numbers a frame carries neither a line nor a column
+// (whatever showcolumns says), so the frames of one function are one source.
+func coarse(q *profile.Profile, gran string) string {
+	if gran != "functions" && gran != "filefunctions" && gran != "files" {
+		return ""
+	}
+	for _, l := range q.Location {
+		for _, ln := range l.Line {
+			if ln.Line != 0 || ln.Column != 0 {
+				name := ""
+				if ln.Function != nil {
+					name = ln.Function.Name
+				}
+				return fmt.Sprintf("at granularity %s a frame of %q still carries line %d column %d: the frames of one function are shown as several sources", gran, name, ln.Line, ln.Column)
+			}
+		}
+	}
+	return ""
+}
+
 func runAPI(c *harness.Ctx) harness.Result {
 	r := c.Rng
 	p := c04.GenReportProfile(r)
@@ -233,6 +253,10 @@ func runAPI(c *harness.Ctx) harness.Result {
 		return harness.Result{Verdict: harness.Inconclusive, Detail: err.Error()}
 	}
 	res := harness.Result{NonTrivial: len(p.Sample) >= 2, Sig: gran + gen.Shape(p), Sample: map[string]any{"granularity": gran, "noinlines": noinl, "sample_index": index, "profile": gen.Describe(p)}}
+	if msg := coarse(q, gran); msg != "" {
+		res.Verdict, res.Detail = harness.Violated, fmt.Sprintf("granularity=%s noinlines=%v showcolumns=%v: %s\nprofile:\n%s", gran, noinl, cols, msg, harness.Trunc(p.String(), 3000))
+		return res
+	}
 	ref := q.Copy()
 	rpt := report.New(q, &report.Options{OutputFormat: report.Dot, SampleValue: func(v []int64) int64 { return v[index] }, SampleType: p.SampleType[index].Type, SampleUnit: p.SampleType[index].Unit})
 	ss := rpt.Stacks()
@@ -311,6 +335,10 @@ func runWeb(c *harness.Ctx) harness.Result {
 		if noinl {
 			url += "&noinlines=t"
 		}
+		cols := r.Intn(4) == 0
+		if cols {
+			url += "&showcolumns=t"
+		}
 		code, body, pn := web.Get(url)
 		if pn != "" {
 			return harness.Violation("GET %s panicked: %s", url, pn)
@@ -334,8 +362,12 @@ func runWeb(c *harness.Ctx) harness.Result {
 			g = "functions" // the session was started with -functions (drv.StartWeb always names a granularity)
 		}
 		q := p.Copy()
-		if err := aggregateFor(q, g, noinl, false); err != nil {
+		if err := aggregateFor(q, g, noinl, cols); err != nil {
 			continue
+		}
+		if msg := coarse(q, g); msg != "" {
+			res.Verdict, res.Detail = harness.Violated, fmt.Sprintf("GET %s: %s", url, msg)
+			return res
 		}
 		c.Stat("web_stack_sets", 1)
 		if msg := checkSet(&js, q, index); msg != "" {
